@@ -294,15 +294,17 @@ func runC03(c *Check, a *Analysis) {
 		for i := range comp.completes[fn] {
 			prm := fn.Params[i]
 			sites := comp.sitesIn(fn)
-			_, tr, okp := p.mustPass(fn, nil, func(x ssa.Instruction) bool {
+			// a nil call is no call: the edges on which the parameter was tested nil are outside the obligation
+			nilCall, _ := p.guardEdges(fn, matchValueNil(p, prm))
+			_, tr, found := p.reachCut(fn, nil, isReturnLike, func(x ssa.Instruction) bool {
 				for _, s := range sites {
 					if s.Instr == x && s.What != "Error=" && p.paramOfVar(fn, p.varKeyOfBinding(s.Var)) == i {
 						return true
 					}
 				}
 				return false
-			})
-			_ = prm
+			}, nilCall)
+			okp := !found
 			det := ""
 			if !okp {
 				det = "a path through " + fname(fn) + " returns without completing its call (" + p.lineTrail(tr) + ")"
